@@ -28,4 +28,10 @@ CLAIMS["C11"] = {
     "note": NOTE,
 }
 
+CLAIMS["C12"] = {
+    "text": "Decides: the complete (3 signs x {min,max} x 6 operators x right-guard) dispatch table of _process_rule against the table derived from `t < #max S iff some s > t` and its duals (72 rows): the one-rule-per-element translation is used exactly for a single bound in the aggregate's own direction; candidate selection (_minmax_agg kinds); shape of the simple translation (sign, bound op weight, per-element fresh renaming of element-local variables, every element yields a rule); chain translation only for a single element and only when a static domain exists, domain = weight under element condition + connected body literals; function -> (border #inf/#sup, extreme predicate, chain direction, step direction) table of the generated rules; _characteristic_variables per term kind; the template-G side conditions for replacing a min/max result inside #minimize and #sum elements (weight is V/-V with the sign table, weight IS the result argument - missing, genuine defect, fixed -, no other objective/sibling tuple may unify, all variables of the result literal occur as characteristic variables of the tuple), difference orientation and base tuple per aggregate type. The empty-candidate-domain defect of the border rule is a recorded known finding (A-08). Not decided: correctness of the chain encoding relative to every instance.",
+    "technique": "enum decision tables (72 rows) + constructor-argument/template features + must-pass-through guards by abstract interpretation of minmax_aggregates.py",
+    "note": NOTE,
+}
+
 NOT_APPLICABLE: dict[str, str] = {}
